@@ -7,7 +7,7 @@ from . import panrules
 from .iter_rules import *
 
 BI = "parsed_test_case::ParsedTestCase::build_indices"
-SIG = "some!(Iterator::next(IntoIterator::into_iter(Iterator::enumerate([T]::iter(signals)))))"
+SIG = "some!(Iterator::next(Iterator::enumerate([T]::iter(signals))))"
 
 
 def generator_rows(P, cl, which):
